@@ -896,8 +896,144 @@ def assign_step(ctx, live, cfgname, op):
     ctx.nontriv((cfgname, "assign", op))
 
 
+# ------------------------------------------------------------------- cells
+class Node4(HasTraits):
+    pass
+
+
+def cells(ctx):
+    import itertools
+    from traits.api import Dict as _D, Instance as _I, List as _L, Set as _S
+
+    def bad(kind, msg, **case):
+        ctx.violation("C04:cell:%s" % kind, msg, config="cells",
+                      state=[], steps=[], **case)
+
+    # (a) a container nested two deep whose innermost class is given by
+    # name (resolved lazily, by the first inner validation)
+    for outer_first in (False, True):
+        case = {"cell": "nested-byname", "outer_first": outer_first}
+        ctx.case({"config": "cells", "state": [], "steps": [], **case})
+        ctx.ev()
+        ctx.tr()
+
+        class H(HasTraits):
+            rows = _L(_L(_I("props.c04_containers.Node4")))
+        h = H()
+        n = Node4()
+        try:
+            if outer_first:
+                h.rows = [[]]
+            h.rows = [[n]]                  # triggers the resolution
+            h.rows.append([n, None])        # rows are lists of nodes
+            h.rows[0].append(Node4())
+        except Exception as exc:
+            bad("nested-byname:valid-refused", "valid nested rows refused: "
+                "%r" % (exc,), **case)
+            continue
+        for inval in (n, None, [5], "ab"):
+            try:
+                h.rows.append(inval)
+                bad("nested-byname:invalid-row", "List(List(Instance(name))) "
+                    "accepted the row %r" % (inval,), **case)
+                break
+            except TraitError:
+                ctx.outcome("nested-TraitError")
+    # (b) the default of a List with minlen > 0: a read gives a list inside
+    # the bounds or raises TraitError; never a list outside them
+    for mk, label in ((lambda: _L(Int, minlen=1), "no-default"),
+                      (lambda: _L(Int, [], minlen=1), "empty-default"),
+                      (lambda: _L(Int, [1, 2, 3], minlen=1, maxlen=2),
+                       "long-default")):
+        case = {"cell": "default-length", "which": label}
+        ctx.case({"config": "cells", "state": [], "steps": [], **case})
+        ctx.ev()
+        ctx.tr()
+        try:
+            class H2(HasTraits):
+                xs = mk()
+            v = H2().xs
+        except (TraitError, ValueError):
+            ctx.outcome("TraitError-length")
+            continue
+        except Exception as exc:
+            bad("default-length:raises", "%s: %r" % (label, exc), **case)
+            continue
+        lo, hi = 1, (2 if label == "long-default" else None)
+        if len(v) < lo or (hi is not None and len(v) > hi):
+            bad("default-length:%s" % label, "the default of a List with "
+                "length bounds %s..%s reads as %r" % (lo, hi, list(v)),
+                **case)
+        else:
+            ctx.outcome("changed")
+    # (c) one container definition used for two attributes; one attribute's
+    # value assigned to the other: two containers, each with its own events
+    for kind in ("list", "dict", "set"):
+        case = {"cell": "shared-definition", "kind": kind}
+        ctx.case({"config": "cells", "state": [], "steps": [], **case})
+        ctx.ev()
+        ctx.tr()
+        shared = {"list": lambda: _L(CInt), "dict": lambda: _D(Str, CInt),
+                  "set": lambda: _S(CInt)}[kind]()
+        log = []
+
+        class H3(HasTraits):
+            home = shared
+            away = shared
+
+            def _home_items_changed(self, ev):
+                log.append("home")
+
+            def _away_items_changed(self, ev):
+                log.append("away")
+        h = H3()
+        h.home = {"list": [1], "dict": {"a": 1}, "set": {1}}[kind]
+        try:
+            h.away = h.home
+            if kind == "list":
+                h.away.append("3")
+                h.away.pop()
+            elif kind == "dict":
+                h.away["z"] = "3"
+                del h.away["z"]
+            else:
+                h.away.add("3")
+                h.away.discard(3)
+        except Exception as exc:
+            bad("shared-definition:raises:%s" % kind, "obj.away = obj.home "
+                "followed by a valid mutation raised %r" % (exc,), **case)
+            continue
+        if h.away is h.home:
+            bad("shared-definition:same-object:%s" % kind, "obj.away = "
+                "obj.home made both attributes hold one container", **case)
+            continue
+        log.clear()
+        if kind == "list":
+            h.away.append("2")
+        elif kind == "dict":
+            h.away["b"] = "2"
+        else:
+            h.away.add("2")
+        if log != ["away"] or len(h.home) != 1 or len(h.away) != 2:
+            bad("shared-definition:crosstalk:%s" % kind, "after obj.away = "
+                "obj.home a mutation of away called %r, home %r away %r"
+                % (log, h.home, h.away), **case)
+            continue
+        try:
+            if kind == "list":
+                h.away.append("x")
+            elif kind == "dict":
+                h.away["c"] = "x"
+            else:
+                h.away.add("x")
+            bad("shared-definition:invalid:%s" % kind, "invalid item "
+                "accepted", **case)
+        except TraitError:
+            ctx.outcome("TraitError-item")
+
+
 def shards(tier):
-    out = []
+    out = [{"kind": "cells", "config": "cells"}]
     n = 4 if tier == "quick" else 8
     for cfgname in CONFIGS:
         for c in range(n):
@@ -910,6 +1046,10 @@ def shards(tier):
 
 def run_shard(ctx, shard, tier):
     cfgname = shard["config"]
+    if cfgname == "cells":
+        cells(ctx)
+        ctx.depth_completed = 1
+        return
     cfg = CONFIGS[cfgname]
     if shard["kind"] == "all":
         last = None
@@ -972,6 +1112,11 @@ def replay(rec):
     ctx = Ctx("C04", None, "quick", 0)
     case = rec["case"]
     cfgname = case["config"]
+    if cfgname == "cells":
+        cells(ctx)
+        for v in ctx.violations.values():
+            print("  violation:", v["sig"], v["msg"])
+        return not ctx.violations
     live = Live(cfgname, install_value(CONFIGS[cfgname], case["state"]))
     print("state:", plain(live.o.x))
     for path, op in case["steps"]:
